@@ -355,8 +355,10 @@ def _gen_rsa(r, tier, f, focus):
     knobs["denylist"]["lib/data/weak_keylist.RSA-%d.dat" % bits] = \
         "# planted by the simulator\n" + "".join(h + "\n" for h in hs)
   for bits in (1024, 2048, 4096):
-    knobs["denylist"].setdefault(
-        "lib/data/weak_keylist.RSA-%d.dat" % bits, "")
+    # like the shipped lists, every file has entries (here: of no real key)
+    path = "lib/data/weak_keylist.RSA-%d.dat" % bits
+    knobs["denylist"][path] = knobs["denylist"].get(path, "") + \
+        "# filler\n%020x\n%020x\n" % (r.getrandbits(80), r.getrandbits(80))
   n = len(pool)
   ops = []
   initial = {}
@@ -397,13 +399,13 @@ def _gen_rsa(r, tier, f, focus):
     return op
 
   deny_idx = [j for j in range(n) if pool[j]["fam"] == "denylisted"]
-  if fault_budget and deny_idx and r.random() < 0.7:
+  if deny_idx and r.random() < (0.8 if fault_budget else 0.4):
     # one of the denylist files cannot be opened while the registry is first
     # built; the caller carries on; a denylisted key must still be flagged
     fault_budget = 0
     b = deny_idx + [j for j in range(n) if j not in deny_idx][:2]
     ops.append({"op": "seam_fault", "kind": "open_oserror",
-                "k": r.randrange(0, 3)})
+                "k": r.choice([0, 1, 1, 2, 2])})
     ops.append({"op": "check_all", "batch": list(b), "log_level": 0,
                 "oracle": []})
     ops.append({"op": "heal"})
@@ -776,5 +778,5 @@ def directed_plans(prop, profile):
 
 
 def _empty_deny():
-  return {"lib/data/weak_keylist.RSA-%d.dat" % b: "" for b in (1024, 2048,
-                                                               4096)}
+  return {"lib/data/weak_keylist.RSA-%d.dat" % b: "%020x\n" % (b * 7919)
+          for b in (1024, 2048, 4096)}
